@@ -280,11 +280,13 @@ def perturbations(rnd):
 
 
 class ScriptClock:
-    def __init__(self, step):
-        self.t, self.step = 0.0, step
+    def __init__(self, step, stall_every=None, stall=50.0):
+        self.t, self.step, self.n, self.stall_every, self.stall = 0.0, step, 0, stall_every, stall
 
     def __call__(self):
-        self.t += self.step
+        self.n += 1
+        # a clock that changes regime: mostly `step` apart, every stall_every-th reading after a long pause
+        self.t += self.stall if (self.stall_every and self.n % self.stall_every == 0) else self.step
         return self.t
 
 
@@ -324,6 +326,7 @@ def run(tier, seed):
             variants.append(("progress-bar", dict(progressbar=True)))
             variants.append(("slow-write-clock", dict(clock=ScriptClock(50.0))))
             variants.append(("fast-write-clock", dict(clock=ScriptClock(1e-4))))
+            variants.append(("fast-then-stalling-write-clock", dict(clock=ScriptClock(1e-4, stall_every=rnd.choice([5, 7, 11])))))
             if cfg["kind"] == "hmc" and cfg["mass"] != "none":
                 variants.append(("mass-matrix-used-by-another-sampler", dict(mass_history="used-by-another-sampler")))
                 variants.append(("mass-matrix-with-its-own-generator", dict(mass_history="own-generator")))
